@@ -427,7 +427,6 @@ Definition do_symlink (f : fsys) (fp : list name) (n : node) : option fsys :=
 Definition do_link (g : cfg) (f : fsys) (cwd : path) (fp pn : list name) (tgt : str) : option fsys :=
   let old := if fixH g then awalk f pn false
              else kwalk f cwd (is_abs tgt) (comps_of tgt) false in
-  let old := match tgt with [] => WErrNoEnt | _ => old end in
   match old with
   | WFile _ i =>
     match awalk f fp false with WNoEnt q => Some (set_ent q (NFile i) f) | _ => None end
